@@ -60,6 +60,40 @@ def mkP (tab : PatTable) (trace : List (Nat × Str × Bool)) : Nat → Str → O
   | some g => some (groupMatch g t)
   | Option.none => (trace.find? fun e => e.1 == id && e.2.1 == t).map (·.2.2)
 
+/-! ## the length family and xs:QName / xs:NOTATION
+
+  XsdLengthFacet / XsdMinLengthFacet / XsdMaxLengthFacet decide at build time whether they are checked
+  (facets.py:194-197, 232-235, 270-273): not when `base_type.primitive_type` is xs:QName or xs:NOTATION.  The primitive
+  type of a restriction is that of its base; a list and a union are their own (simple_types.py:576-579), so on a LIST
+  over xs:QName the facets count the items like on every list. -/
+
+/-- `self.base_type.primitive_type.name in QNAME_TAGS` -/
+def lenExemptRoot : SType → Bool
+  | .builtin b => b.lenExempt
+  | .restr base _ _ _ => lenExemptRoot base
+  | .list _ => false
+  | .union _ => false
+
+def Facet.isLengthFamily : Facet → Bool
+  | .length _ | .minLength _ | .maxLength _ => true
+  | _ => false
+
+/-- `self.validate = self.skip_validation` for the length family of an exempted restriction -/
+def exemptFacets (ex : Bool) (fs : List Facet) : List Facet :=
+  if ex then fs.map fun f => if f.isLengthFamily then Facet.skip else f else fs
+
+mutual
+/-- the type as it validates: the facets declared (introspected from the built type) with the exemption applied -/
+def applyExempt : SType → SType
+  | .builtin b => .builtin b
+  | .restr base ws pat fs => .restr (applyExempt base) ws pat (exemptFacets (lenExemptRoot base) fs)
+  | .list item => .list (applyExempt item)
+  | .union ms => .union (applyExemptAll ms)
+def applyExemptAll : STypes → STypes
+  | .nil => .nil
+  | .cons t ts => .cons (applyExempt t) (applyExemptAll ts)
+end
+
 /-! ## `context.patterns` -/
 
 /-- the pattern groups waiting in the validation context (pinned code: at most one) -/
